@@ -4,10 +4,10 @@ for the instruction set and the quantifiers).
 
 `complete`: for EVERY program, fuel, configuration, sound simplifier, standard valuation `I`, related initial frame and
 EVERY oracle whose `unsat` answers are right (`OracleSound`; nothing is assumed about `sat` or `unknown`, so a solver
-that times out on every query is covered): whenever the reference EVM terminates on the input `I` describes (not by
-overflowing the 1024-item stack, which halmos does not model), the result of `run` has an end state whose path `I`
-satisfies and which reports exactly that outcome — or that end state is an error report (stuck) or the tagged
-invalid-destination halt (known finding) or an OutOfGas raised by halmos' own memory-limit check — or a flag is raised: bounded loop, `--depth` cut, or the model's fuel.
+that times out on every query is covered): whenever the reference EVM terminates on the input `I` describes, the result of `run` has an end state whose path `I`
+satisfies and which reports exactly that outcome — or that end state is an error report (stuck) or a tagged end (the
+invalid-destination halt of `jumpi` — known finding —, an OutOfGas raised by halmos' own memory-limit check, the
+model's stack-limit stop) — or a flag is raised: bounded loop, `--depth` cut, or the model's fuel.
 
 The only discarding site of the core is `jumpi`; `discard_only_if_unsat` is its lemma, `unknown_never_discards` the
 oracle-free core of it.
@@ -92,37 +92,39 @@ theorem discard_only_if_unsat {s : Simp} (hs : SimpSound s) {o : Oracle} (ho : O
     · right; left; rw [hb]; simp
     · right; right; exact ⟨e, hm, ht, by rw [hst]; exact hsat⟩
 
-/-- **step_complete.** One dispatch step, any opcode: if the concrete run from a related frame `f` terminates with `h`,
-    the step keeps a successor whose path `I` satisfies and that is related to a frame from which the concrete run
-    still terminates with `h`, or it yields an end state covering `h`, or it records a bounded loop. -/
+/-- **step_complete.** One dispatch step, any opcode: if the concrete run from a related world and frame `(w, f)`
+    terminates with the result `r` (world and outcome), the step keeps a successor whose path `I` satisfies and that is
+    related to a world and frame from which the concrete run still terminates with `r`, or it yields an end state
+    covering `r`, or it records a bounded loop. -/
 theorem step_complete {I : Interp} {env : Env} {code : List Nat} {p : Evm.Params} {w : Evm.World} {s : Simp}
     {o : Oracle} {cfg : Cfg} {st : SState} {f : Evm.Frame} (hs : SimpSound s) (ho : OracleSound o) (hI : I.Std)
     (hR : R I env code p st f) (hl : f.stack.length ≤ 1024) (hmem : cfg.maxMem + 32 ≤ p.memLimit)
-    (hcode : ∀ b ∈ code, b < 256) (hsat : Sat I st.path) {w' : Evm.World} {h : Evm.Halt}
-    (hh : Halts p w f (w', h)) :
+    (hcode : ∀ b ∈ code, b < 256) {w0 : Evm.World} (hW : WRel I w0 w f.this st.storage st.transient)
+    (hsat : Sat I st.path) {r : Evm.World × Evm.Halt} (hh : Halts p w f r) :
     (∃ st' ∈ (step s o cfg env code st).next, Sat I st'.path ∧
-        ∃ f', R I env code p st' f' ∧ Halts p w f' (w', h)) ∨
-    (∃ e ∈ (step s o cfg env code st).ends, EndCovers I h e) ∨
+        ∃ w' f', R I env code p st' f' ∧ WRel I w0 w' f.this st'.storage st'.transient ∧ Halts p w' f' r) ∨
+    (∃ e ∈ (step s o cfg env code st).ends, EndCovers I w0 f.this r e) ∨
     (step s o cfg env code st).bounded ≠ [] :=
-  Lemmas.Sevm.step_complete hs ho hI hR hl hmem hcode hsat hh
+  Lemmas.Sevm.step_complete hs ho hI hR hl hmem hcode hW hsat hh
 
 /-! ### the property -/
 
-/-- **C02.complete.** (`hmem` as in `C01.sound`; an end state "reports `h`" when its kind together with its data
-    evaluated under `I` is `h`) -/
+/-- **C02.complete.** (`hmem`, `hcode`, `hz` as in `C01.sound`; an end state "reports" the concrete result `(w', h)`
+    when its kind together with its data evaluated under `I` is `h` and its storage maps describe `w'`) -/
 theorem complete {s : Simp} (hs : SimpSound s) {o : Oracle} (ho : OracleSound o) (cfg : Cfg) (env : Env)
     (code : List Nat) (fuel : Nat) (p : Evm.Params) (w : Evm.World) (hmem : cfg.maxMem + 32 ≤ p.memLimit)
     (hcode : ∀ b ∈ code, b < 256) (I : Interp) (hI : I.Std) (f0 : Evm.Frame)
-    (hR0 : R I env code p initState f0) (n : Nat) (w' : Evm.World) (h : Evm.Halt)
-    (hex : Evm.exec p n w f0 = some (w', h)) (hne : h ≠ .stackOverflow) :
+    (hR0 : R I env code p initState f0) (hz : C01.ZeroStorage w f0.this) (n : Nat) (w' : Evm.World) (h : Evm.Halt)
+    (hex : Evm.exec p n w f0 = some (w', h)) :
     (∃ e ∈ (run s o cfg env code fuel).ends, Sat I e.st.path ∧
-        ((∃ h0, e.out = .halt h0 ∧ haltWith h0 (e.data.map (·.eval I)) = h ∧ e.tag = .normal) ∨
+        ((∃ h0, e.out = .halt h0 ∧ haltWith h0 (e.data.map (·.eval I)) = h ∧ e.tag = .normal ∧
+            WRel I w w' f0.this e.st.storage e.st.transient) ∨
          (∃ r, e.out = .stuck r) ∨ e.tag ≠ .normal)) ∨
     (run s o cfg env code fuel).boundedLoops ≠ [] ∨
     (run s o cfg env code fuel).depthCut = true ∨
     (run s o cfg env code fuel).outOfFuel = true :=
-  explore_complete (cfg := cfg) hs ho hmem hcode hI hne fuel 0 [initState] {}
-    ⟨initState, List.mem_singleton.2 rfl, Sat.nil I, f0, hR0, n, hex⟩
+  explore_complete (cfg := cfg) (r := (w', h)) hs ho hmem hcode hI fuel 0 [initState] {}
+    ⟨initState, List.mem_singleton.2 rfl, Sat.nil I, w, f0, hR0, rfl, WRel.init hz, n, hex⟩
 
 /-! ### non-vacuity -/
 
@@ -132,14 +134,25 @@ theorem complete {s : Simp} (hs : SimpSound s) {o : Oracle} (ho : OracleSound o)
 example : ∃ e ∈ exRes.ends, Sat exI e.st.path ∧
     ((∃ h0, e.out = .halt h0 ∧ haltWith h0 (e.data.map (·.eval exI)) = .invalidOpcode ∧ e.tag = .normal) ∨
      (∃ r, e.out = .stuck r) ∨ e.tag ≠ .normal) := by
+  suffices hs : ∃ w', ∃ e ∈ exRes.ends, Sat exI e.st.path ∧
+      ((∃ h0, e.out = .halt h0 ∧ haltWith h0 (e.data.map (·.eval exI)) = .invalidOpcode ∧ e.tag = .normal ∧
+          WRel exI exW w' exF0.this e.st.storage e.st.transient) ∨
+       (∃ r, e.out = .stuck r) ∨ e.tag ≠ .normal) by
+    obtain ⟨w', e, hm, hsat, hc⟩ := hs
+    refine ⟨e, hm, hsat, ?_⟩
+    rcases hc with ⟨h0, a, b, c, _⟩ | hc | hc
+    · exact Or.inl ⟨h0, a, b, c⟩
+    · exact Or.inr (Or.inl hc)
+    · exact Or.inr (Or.inr hc)
   have hex : ∃ w', Evm.exec exP 10 exW exF0 = some (w', .invalidOpcode) := by
     have : (Evm.exec exP 10 exW exF0).map (·.2) = some .invalidOpcode := by decide +kernel
     match h : Evm.exec exP 10 exW exF0, this with
     | some (w', _), this => exact ⟨w', by simp only [Option.map_some, Option.some.injEq] at this; rw [← this]⟩
   obtain ⟨w', hex⟩ := hex
+  refine ⟨w', ?_⟩
   have hflags : exRes.boundedLoops = [] ∧ exRes.depthCut = false ∧ exRes.outOfFuel = false := by decide +kernel
-  rcases complete foldSimp_sound oracleSound_unknown {} exEnv exCode 100 exP exW C01.exMem (by decide) exI exI_std exF0 exR 10 w'
-      .invalidOpcode hex (by decide) with h | h | h | h
+  rcases complete foldSimp_sound oracleSound_unknown {} exEnv exCode 100 exP exW C01.exMem (by decide) exI exI_std exF0 exR
+      (C01.exZero _) 10 w' .invalidOpcode hex with h | h | h | h
   · exact h
   · exact absurd hflags.1 h
   · rw [show (run foldSimp (fun _ _ => Verdict.unknown) {} exEnv exCode 100) = exRes from rfl, hflags.2.1] at h
